@@ -29,7 +29,8 @@ import random                                     # noqa: E402
 from insights.core import dr, plugins, spec_factory          # noqa: E402
 from insights.core.context import HostContext                # noqa: E402
 from insights.core.exceptions import (SkipComponent, ContentException, CalledProcessError,   # noqa: E402
-                                      TimeoutException)
+                                      TimeoutException, ValidationException)
+from insights import settings                                 # noqa: E402
 from insights.core.plugins import Response                    # noqa: E402
 import insights                                               # noqa: E402
 
@@ -102,6 +103,10 @@ def make_exc(kind, tag):
 
 
 def kind_of(e):
+    if isinstance(e, ValidationException):
+        return "valexc"
+    if type(e) is Exception:
+        return "Exception"
     if isinstance(e, ContentException):
         return "ce"
     if isinstance(e, SkipComponent):
@@ -124,6 +129,8 @@ def kind_of(e):
 
 
 def tag_of(e):
+    if isinstance(e, ValidationException) or type(e) is Exception:
+        return ""          # message texts of the framework's own rejections are not part of any property
     if isinstance(e, CalledProcessError):
         return str(e.cmd)
     return str(e.args[0]) if e.args else ""
@@ -239,6 +246,95 @@ def value_of(name, args):
     return ("v", name, digest(args))
 
 
+
+# ------------------------------------------------------------------------------------------------
+# rich rule returns (C12): what a rule body constructs / returns, and what the property expects of it
+# ------------------------------------------------------------------------------------------------
+RESP_CLASSES = {"pass": "make_pass", "fail": "make_fail", "info": "make_info", "fingerprint": "make_fingerprint",
+                "response": "make_response"}
+RESP_TYPE = {"pass": "pass", "fail": "rule", "info": "info", "fingerprint": "fingerprint", "response": "rule"}
+KEY_NAME = {"pass": "pass_key", "fail": "error_key", "info": "info_key", "fingerprint": "fingerprint_key",
+            "response": "error_key"}
+
+
+def rule_kwargs(nd, args, limit):
+    """Keyword arguments the generated rule passes to its response constructor (pure function of the case)."""
+    rs = nd["rspec"]
+    kw = {"d": digest(args)[:8]}
+    if rs.get("payload"):
+        kw["x"] = "p" * rs["payload"]
+    if rs["kind"] == "big":
+        base = dict(kw)
+        base["x"] = ""
+        base["type"] = RESP_TYPE[rs["cls"]]
+        base[KEY_NAME[rs["cls"]]] = rs["key"]
+        kw["x"] = "b" * max(0, limit + rs["delta"] - len(str(base)))
+    return kw
+
+
+def rule_measured_length(nd, kw):
+    rs = nd["rspec"]
+    full = dict(kw)
+    full["type"] = RESP_TYPE[rs["cls"]]
+    full[KEY_NAME[rs["cls"]]] = rs["key"]
+    return len(str(full))
+
+
+def rule_return(nd, args, limit):
+    """Executed inside the generated rule body: builds the real Response (or misbehaves as planned)."""
+    rs = nd["rspec"]
+    k = rs["kind"]
+    if k in ("typed", "big"):
+        cls = getattr(plugins, RESP_CLASSES[rs["cls"]])
+        return cls(rs["key"], **rule_kwargs(nd, args, limit))
+    if k == "metadata":
+        return plugins.make_metadata(**{"m_" + nd["name"]: digest(args)[:8]})
+    if k == "metadata_key":
+        return plugins.make_metadata_key(rs["key"], digest(args)[:8])
+    if k == "none":
+        return None
+    if k == "nonresponse":
+        return {"type": "rule", "error_key": rs["key"]} if rs.get("dictlike") else "not a response"
+    cls = getattr(plugins, RESP_CLASSES[rs["cls"]])
+    if k == "badkey_none":
+        return cls(None, d=1)
+    if k == "badkey_empty":
+        return cls("", d=1)
+    if k == "badkey_int":
+        return cls(5, d=1)
+    if k == "badkey_bytes":
+        return cls(b"KEY", d=1)
+    if k == "reserved_type":
+        return cls(rs["key"], type="mine")
+    if k == "reserved_key":
+        return cls(rs["key"], **{KEY_NAME[rs["cls"]]: "other"})
+    if k == "metadata_reserved":
+        return plugins.make_metadata(type="mine")
+    raise HarnessError("unknown rule spec kind %r" % k)
+
+
+def rule_expect(nd, args, limit):
+    """What the property demands for that return: ("resp", canonical value) or ("exc", kind)."""
+    rs = nd["rspec"]
+    k = rs["kind"]
+    if k in ("typed", "big"):
+        kw = rule_kwargs(nd, args, limit)
+        length = rule_measured_length(nd, kw)
+        if length > limit:
+            items = (("max_detail_length_error", repr(length)),)
+        else:
+            items = tuple(sorted((a, repr(b)) for a, b in kw.items()))
+        return ("resp", ("resp", RESP_TYPE[rs["cls"]], rs["key"], items))
+    if k == "metadata":
+        return ("resp", ("resp", "metadata", None, (("m_" + nd["name"], repr(digest(args)[:8])),)))
+    if k == "metadata_key":
+        return ("resp", ("resp", "metadata_key", rs["key"], (("value", repr(digest(args)[:8])),)))
+    if k == "none":
+        return ("resp", ("resp", "none", "NONE_KEY", ()))
+    if k == "nonresponse":
+        return ("exc", "Exception")
+    return ("exc", "valexc")
+
 # ------------------------------------------------------------------------------------------------
 # generator
 # ------------------------------------------------------------------------------------------------
@@ -250,6 +346,8 @@ FLAVOURS = {
                 hostctx=0.05, graph_drop=0.1),
     "C03": dict(fault=0.45, seeded=0.05, disabled=0.05, observers=2, pool=0.1, enable_cfg=0.0, rp=0.35,
                 hostctx=0.3, graph_drop=0.05),
+    "C12": dict(fault=0.3, seeded=0.05, disabled=0.05, observers=1, pool=0.45, enable_cfg=0.05, rp=0.15,
+                hostctx=0.0, graph_drop=0.0),
     "C04": dict(fault=0.25, seeded=0.08, disabled=0.05, observers=1, pool=1.0, enable_cfg=0.0, rp=0.3,
                 hostctx=0.25, graph_drop=0.05),
 }
@@ -351,7 +449,7 @@ def gen_program(st, flavour, tier):
         cfgs = []
         for _ in range(rk.randint(0, 3)):
             i = rk.randrange(n)
-            nm = MODNAME + "." + nodes[i]["name"]
+            nm = nodes[i].get("module", MODNAME) + "." + nodes[i]["name"]
             if rk.random() < 0.3:
                 nm = nm[:-1]           # a genuine prefix: matches c0x
             cfgs.append({"name": nm, "enabled": rk.random() < 0.5})
@@ -487,7 +585,7 @@ def enabled_map(case):
         de = cfg.get("default_component_enabled", True)
         # apply_default_enabled(): every entry already present in ENABLED is overwritten, the rest default
         en = dict((i, de) for i in en)
-        names = sorted((MODNAME + "." + nd["name"], i) for i, nd in enumerate(nodes))
+        names = sorted((nd.get("module", MODNAME) + "." + nd["name"], i) for i, nd in enumerate(nodes))
         for c in cfg.get("configs", []):
             for nm, i in names:
                 if nm.startswith(c["name"]):
@@ -607,7 +705,13 @@ def model(case, fixed_f1=True, pool_thread=False):
             else:
                 oc = "value"
         if oc == "value":
-            if t == "rule":
+            if t == "rule" and nd.get("rspec"):
+                exp = rule_expect(nd, args, case.get("max_detail_length") or 65535)
+                if exp[0] == "resp":
+                    val[i] = exp[1]
+                else:
+                    generic(exp[1], "")
+            elif t == "rule":
                 r = nd.get("resp", "pass")
                 if r == "none":
                     val[i] = ("resp", "none", "NONE_KEY", ())
@@ -676,6 +780,10 @@ class World(object):
 
         def finish(oc, tag, args):
             if oc == "value" or oc == "slow":
+                if t == "rule" and nd.get("rspec"):
+                    if nd["rspec"]["kind"] not in ("typed", "metadata", "metadata_key", "none"):
+                        world.fired("rule_" + nd["rspec"]["kind"])
+                    return rule_return(nd, args, settings.defaults["max_detail_length"])
                 if t == "rule":
                     r = nd.get("resp", "pass")
                     if r == "none":
@@ -718,12 +826,14 @@ class World(object):
     def build(self):
         case = self.case
         nodes = case["nodes"]
+        if case.get("max_detail_length"):
+            settings.defaults["max_detail_length"] = case["max_detail_length"]
         objs = []
         for nd in nodes:
             if nd["type"] == "rp":
                 objs.append(None)
             else:
-                objs.append(G(nd["name"], nd["h"]))
+                objs.append(G(nd["name"], nd["h"], nd.get("module", MODNAME)))
         for i, nd in enumerate(nodes):
             t = nd["type"]
             if t == "rp":
@@ -749,6 +859,11 @@ class World(object):
                     kw["multi_output"] = True
                 plugins.datasource(*deps, **kw)(g)
             else:
+                if t == "rule" and nd.get("rspec"):
+                    if nd["rspec"].get("tags") is not None:
+                        kw["tags"] = list(nd["rspec"]["tags"])
+                    if nd["rspec"].get("links") is not None:
+                        kw["links"] = dict(nd["rspec"]["links"])
                 TYPES[t](*deps, **kw)(g)
         self.objs = objs
         self.idx = dict((o, i) for i, o in enumerate(objs))
@@ -1504,7 +1619,12 @@ class EngineCheck(Check):
         if any(o["raises"] for o in case["observers"]):
             stats["probes"]["cases_with_failing_observer"] = 1
         dg = digest(log)
-        return {"digest": dg, "sig": dg, "violations": viols, "stats": stats, "nontrivial": nontrivial, "sim_seconds": sim}
+        scheds = [r.pool.switches for r in runs if r.pool is not None and len(r.pool.switches) > len(r.pool.tasks) + 1]
+        orders = [[e[2] for e in r.ev if e[0] == "obs" and e[1] == "mon"] for r in runs]
+        return {"digest": dg, "sig": dg, "violations": viols, "stats": stats, "nontrivial": nontrivial, "sim_seconds": sim,
+                "distinct": {"pool_schedules": digest(scheds) if scheds else None,
+                             "attempt_orders": digest(orders),
+                             "programs": digest(case["nodes"])}}
 
     def shrink(self, case):
         driver = case["driver"]
